@@ -241,14 +241,19 @@ Proof. vm_compute. reflexivity. Qed.
 (* ---------------------------------------------------------------- native capabilities *)
 Lemma deny_beats_allow_lemma (c : config) (cap : string) :
   In cap (denied c) -> check_native_capability c cap = false.
-Proof. intro H. unfold check_native_capability. apply smem_In in H. rewrite H. reflexivity. Qed.
+Proof. intro H. unfold check_native_capability. apply smem_In in H. rewrite H. destruct (std_bit_off c cap); reflexivity. Qed.
+
+Lemma std_bits_deny_native_lemma (c : config) (cap bit : string) :
+  native_caps_consult_std_bits = true -> sassoc cap cap_bits = Some bit -> cap_bit c bit = false ->
+  check_native_capability c cap = false.
+Proof. intros F A B. unfold check_native_capability, std_bit_off. rewrite F, A, B. reflexivity. Qed.
 
 Lemma check_caps_denied (c : config) (caps : list string) (cap : string) :
   In cap caps -> In cap (denied c) -> exists bad, check_native_capabilities c caps = Some bad.
 Proof.
   intros Hin Hd. unfold check_native_capabilities.
   destruct (find (fun cap0 => negb (check_native_capability c cap0)) caps) as [bad|] eqn:F; [exists bad; reflexivity|].
-  exfalso. pose proof (find_none _ _ F cap Hin) as H. cbn in H.
+  exfalso. pose proof (find_none _ _ F cap Hin) as H. cbv beta in H.
   rewrite (deny_beats_allow_lemma c cap Hd) in H. discriminate H.
 Qed.
 
